@@ -32,6 +32,9 @@ def judge(got: Rat, want: Rat) -> Tuple[str, str]:
     """equal | differs | inconclusive, with a short explanation."""
     if got.equals(want):
         return "equal", ""
+    unknown = sorted(s_ for s_ in got.symbols() if "@after" in s_ or "#" in s_)
+    if unknown:
+        return "inconclusive", f"the value depends on a loop the evaluator could not summarise (unknown after the loop: {unknown[:4]})"
     fa = [x for x in foreign_atoms(got) if x not in foreign_atoms(want)]
     if fa:
         return "inconclusive", f"the code's normal form contains calls the algebra does not interpret: {fa[:5]}"
